@@ -3570,9 +3570,21 @@ class Analysis:
         cb_results = self.invoke_callbacks(A, node, ctx)
         if name == "deepcopy":
             r = self.new_cont(node, set(), "deepcopy")
-            for x in (args[0][1] if args else set()):
+            (dc,) = r
+            top = set(args[0][1]) if args else set()
+            for x in top:
                 if x.kind == "inst":
                     r = r | self.copy_inst(node, x)
+            # instances of analysed classes held by a copied container (up to three levels down) are copied with it: the
+            # copy holds copies of them (positions / keys are not kept: they are elements of the one result object)
+            deep = set(top)
+            for _ in range(3):
+                deep |= self.elements(deep)
+            for x in deep - top:
+                if x.kind == "inst":
+                    self.add(self.F[(dc, "[]")], self.copy_inst(node, x))
+                elif x.kind in ("cont", "ext", "glob"):
+                    self.add(self.F[(dc, "[]")], {dc})  # nested containers: the one result object stands for their copies too
             return r
         if name == "copy" and py is not None and getattr(py, "__module__", "") == "copy":
             return self.shallow_copy(node, A)
